@@ -23,6 +23,7 @@ NOT_VERIFIED = ['the sorted-list machine (ascending list, tail run, pop + bisect
                 'Fraction(n_votes, divisor) is exact rational division']
 EXHAUSTIVE = {'thorough': False}
 NAMES = Names(prefix='p')
+_EVALUATORS = {}
 DIVISORS = ['d_hondt', 'sainte_lague', 'imperiali', 'danish', 'macau']
 
 
@@ -251,7 +252,15 @@ def impl(case):
     if case['op'] == 'divisor':
         return guarded(lambda: [num_str(Fraction(_dcase(case)(k))) for k in range(case['upto'])])
     votes, prev, caps = _args(case)
-    ev = vp.HighestAverages(_dcase(case))
+    # half of the cases run on ONE long-lived evaluator per divisor configuration (state kept on the object between elections
+    # would make an outcome depend on earlier, unrelated elections), the others on a fresh object
+    key = (case['divisor'], case['first_coef'], case.get('first_kind'))
+    if int(case_key(case), 16) % 4 < 2:
+        if key not in _EVALUATORS:
+            _EVALUATORS[key] = vp.HighestAverages(_dcase(case))
+        ev = _EVALUATORS[key]
+    else:
+        ev = vp.HighestAverages(_dcase(case))
     return guarded(lambda: enc_distribution(ev.evaluate(votes, case['n'], prev_gains=prev, max_seats=caps), NAMES))
 
 
